@@ -18,6 +18,8 @@ FIXES = [  # (commit, property, expected class prefix, VSIM_COUNT)
     ('dc8d998', 'C14', 'R-machine-precision', 2500),
     ('7c6002d', 'C03', 'V-first-run-view-of-unfrozen-constant', 1200),
     ('a1b0222', 'C18', 'J1-unexpected-exception', 200),
+    ('fe95524', 'C03', 'V-result-depends-on-history', 2400),
+    ('979adeb', 'C14', 'R-', 3200),
 ]
 
 
